@@ -65,11 +65,19 @@ def error_blocks(B):
     """Blocks that put an error into the return place or propagate a residual."""
     out = set()
     ret_ty = B.b['locals'][0]['ty']
+    # locals whose value is handed to the return slot by a plain move (an inlined helper's own result slot): an Err put there is an error exit too
+    ret_srcs = {0}
+    for _ in range(3):
+        for blk in B.blocks:
+            for st in blk['s']:
+                if st['k'] == '=' and not st['pl'].get('p') and st['pl']['l'] in ret_srcs and st['rv']['k'] == 'use' and st['rv']['op'].get('k') in ('cp', 'mv') \
+                        and not st['rv']['op']['pl'].get('p'):
+                    ret_srcs.add(st['rv']['op']['pl']['l'])
     for i, blk in enumerate(B.blocks):
         t = blk['t']
         if t['k'] == 'call':
             g, r = callee_of(t)
-            if g == 'core::ops::try_trait::FromResidual::from_residual' and t['dst']['l'] == 0:
+            if g == 'core::ops::try_trait::FromResidual::from_residual' and t['dst']['l'] in ret_srcs and not t['dst'].get('p'):
                 out.add(i)
             if g and (g.startswith('core::panicking::') or g.startswith('std::rt::begin_panic') or g == 'core::option::unwrap_failed'
                       or g == 'core::result::unwrap_failed' or g == 'core::option::expect_failed'):
@@ -77,7 +85,7 @@ def error_blocks(B):
         if t['k'] == 'unreachable':
             out.add(i)
         for st in blk['s']:
-            if st['k'] == '=' and st['pl']['l'] == 0 and not st['pl'].get('p'):
+            if st['k'] == '=' and st['pl']['l'] in ret_srcs and not st['pl'].get('p'):
                 rv = st['rv']
                 if rv['k'] == 'agg' and rv['ak'] == 'adt' and rv['adt'] == 'core::result::Result' and rv['var'] == 'Err':
                     out.add(i)
